@@ -230,6 +230,44 @@ class Case:
                     checks=[d for d, _ in self.checks], tags=self.tags)
 
 
+CORPUS = os.path.join(VERIF, "corpus")
+
+
+def load_corpus(pid):
+    """Regression cases kept from earlier failures (seeded changes, findings): run first, compared
+    model <-> implementation op by op (they carry no property-specific predicate)."""
+    d = os.path.join(CORPUS, pid)
+    out = []
+    if os.path.isdir(d):
+        for f in sorted(os.listdir(d)):
+            if f.endswith(".json"):
+                doc = json.load(open(os.path.join(d, f)))
+                c = Case("corpus_" + f[:-5].replace("-", "_"), doc["family"], doc["bs"], doc["w"], doc["dm"],
+                         tags=dict(doc.get("tags", {}), corpus=f[:-5]))
+                c.ops = list(doc["ops"])
+                c.nocompare = set(doc.get("nocompare", []))
+                out.append(c)
+    return out
+
+
+def corpus_add(replay_path, origin):
+    """Add the case of a replay file to the corpus of its property (deduplicated by content)."""
+    doc = json.load(open(replay_path))
+    cj = doc.get("case")
+    if not cj:
+        return None
+    pid = doc["property"]
+    body = dict(family=cj["family"], bs=cj["bs"], w=cj["w"], dm=cj["dm"], ops=cj["ops"],
+                tags={k: v for k, v in cj.get("tags", {}).items() if k != "corpus"},
+                origin=origin, kind=doc.get("kind"), detail=(doc.get("detail") or "")[:300])
+    h = hashlib.sha256(json.dumps([body["family"], body["bs"], body["w"], body["dm"], body["ops"]]).encode()).hexdigest()[:12]
+    d = os.path.join(CORPUS, pid)
+    os.makedirs(d, exist_ok=True)
+    path = os.path.join(d, "%s-%s.json" % (origin, h))
+    json.dump(body, open(path, "w"), indent=1)
+    return path
+
+
 def parse_results(text):
     """-> {case name: {op index: result tuple}}"""
     out = {}
